@@ -151,12 +151,9 @@ def run(cx):
         # ActivePeers::len -> inner().len() -> connections.len()
         lb = cx.body(f"{CM}::ActivePeers::len")
         t = Origins(lb).of_local(0)
-        ob.require(t[0] == "call" and name_matches(t[1], f"{CM}::ActivePeersInner::len") and term_has_call(t, f"{CM}::ActivePeers::inner"),
+        # (ActivePeersInner::len, a one-line accessor, is always inlined: the wrapper reads connections.len() under the read guard)
+        ob.require(t[0] == "call" and name_matches(t[1], "HashMap::len") and mentions_field(t, "connections") and term_has_call(t, f"{CM}::ActivePeers::inner"),
                    "len/wrapper", f"ActivePeers::len returns {show(t)}", lb.path)
-        ib = cx.body(f"{CM}::ActivePeersInner::len")
-        t = Origins(ib).of_local(0)
-        ob.require(t[0] == "call" and name_matches(t[1], "HashMap::len") and mentions_field(t, "connections"), "len/inner",
-                   f"ActivePeersInner::len returns {show(t)}", ib.path)
         # KnownPeers::get = map.get(peer_id).cloned()
         kb = cx.body(f"{CM}::KnownPeers::get")
         t = Origins(kb).of_local(0)
